@@ -26,7 +26,12 @@ def build_frame(src_mac, dst_mac, src_ip, dst_ip, proto, l4_wo_csum: bytes, csum
     if proto == 17 and c == 0:
         c = 0xFFFF
     if bad_csum:
-        c = (c + 1) & 0xFFFF or 1
+        # perturb the field by a delta that is not 0 in one's-complement arithmetic (0x0000 and 0xFFFF are the same number)
+        delta = 1 if bad_csum is True else int(bad_csum)
+        c2 = (c + delta) & 0xFFFF
+        while c2 % 0xFFFF == c % 0xFFFF or (proto == 17 and c2 == 0 and not v6):
+            c2 = (c2 + 1) & 0xFFFF
+        c = c2
     l4 = l4_wo_csum[:csum_off] + struct.pack("!H", c) + l4_wo_csum[csum_off + 2:]
     if v6:
         ip = struct.pack("!IHBB", 0x60000000, len(l4), proto, ttl) + sip.packed + dip.packed
@@ -37,6 +42,19 @@ def build_frame(src_mac, dst_mac, src_ip, dst_ip, proto, l4_wo_csum: bytes, csum
         ip = hdr[:10] + struct.pack("!H", hc) + hdr[12:]
         etype = 0x0800
     return dst_mac + src_mac + struct.pack("!H", etype) + ip + l4
+
+
+def unfolded_sum(src_ip, dst_ip, proto, l4_wo_csum: bytes) -> int:
+    """sum of all 16-bit words of pseudo header + segment (checksum field zero), NOT folded"""
+    sip, dip = ip_address(src_ip), ip_address(dst_ip)
+    if sip.version == 6:
+        pseudo = sip.packed + dip.packed + struct.pack("!IxxxB", len(l4_wo_csum), proto)
+    else:
+        pseudo = sip.packed + dip.packed + struct.pack("!BBH", 0, proto, len(l4_wo_csum))
+    d = pseudo + l4_wo_csum
+    if len(d) % 2:
+        d += b"\x00"
+    return sum(struct.unpack("!%dH" % (len(d) // 2), d))
 
 
 def tcp_frame(src_mac, dst_mac, src_ip, dst_ip, sport, dport, seq, ack, flags, payload, steer=None, **kw):
